@@ -77,7 +77,7 @@ func (op *tagValuesLookup) findTagValueIDsByExpr(expr stmt.Expr) {
 			tagValueIDs = roaring.New()
 		}
 		// save atomic tag filter result
-		op.executeCtx.TagFilterResult[expr.Rewrite()] = &flow.TagFilterResult{
+		op.executeCtx.TagFilterResult[tagFilterKey(expr)] = &flow.TagFilterResult{
 			TagKeyID:    tagKeyID,
 			TagValueIDs: tagValueIDs,
 		}
@@ -108,4 +108,11 @@ func (op *tagValuesLookup) getTagKeyID(tagKey string) (tag.KeyID, error) {
 // Identifier returns identifier value of tag value lookup operator.
 func (op *tagValuesLookup) Identifier() string {
 	return "Tag Value Lookup"
+}
+
+// tagFilterKey returns the key under which the result of an atomic tag filter is kept.
+// The textual form(Rewrite) is ambiguous: host='~a' and host=~'a' both read "host=~a",
+// host in ('a,b') and host in ('a','b') both read "host in (a,b)"; the typed json form is not.
+func tagFilterKey(expr stmt.Expr) string {
+	return string(stmt.Marshal(expr))
 }
